@@ -4,7 +4,7 @@ from . import mir as M
 from .mir import T, I, Rec, Ref, Tup, Opaque, Unsupported
 from . import solve
 
-REPO = "/repo"
+REPO = os.environ.get("VERIF_REPO", "/repo")      # development only, see verifkit/kani.py
 
 
 def struct_fields(src_path, name):
